@@ -1,6 +1,7 @@
 package mon
 
 import (
+	"github.com/gookit/rux/pkg/handlers"
 	"errors"
 	"bufio"
 	"encoding/json"
@@ -157,7 +158,21 @@ func c03Arm(p *Program) {
 		arm(m)
 	}
 	for _, m := range p.NotAllowH {
+		m := m
 		arm(m)
+		// a not-allowed handler works on the list of allowed methods it is given (its own list)
+		inner := m.Pre
+		m.Pre = func(c *rux.Context, rec *Rec) {
+			if v, ok := c.Get(rux.CTXAllowedMethods); ok {
+				if list, _ := v.([]string); len(list) > 0 {
+					cp := append([]string{}, list...)
+					sort.Strings(cp)
+					rec.Ev("allowed(%s)=%v", m.ID, cp)
+					list[0] = strings.ToLower(list[0])
+				}
+			}
+			inner(c, rec)
+		}
 	}
 }
 
@@ -564,10 +579,27 @@ func runC03B(e *Env) {
 			d["requests_per_goroutine"] = M
 			return d
 		})
+		// a route behind pkg/handlers.Timeout whose handler overruns the deadline without looking at
+		// ctx.Done() and touches its context afterwards (every other shape)
+		build := p.Build
+		if t.Idx%2 == 0 {
+			build = func(extra ...func(*rux.Router)) *rux.Router {
+				rt := p.Build(extra...)
+				rt.GET("/slow/{id}", func(c *rux.Context) {
+					id := c.Param("id")
+					time.Sleep(3 * time.Millisecond)
+					c.SetHeader("X-Slow-Id", id)
+					recOf(c).Ev("slow handler of %s sees id %s after the deadline", id, c.Param("id"))
+					c.WriteString("slow " + c.Param("id"))
+				}, handlers.Timeout(time.Millisecond))
+				return rt
+			}
+			pool = append(pool, c09Req{Kind: "slow_behind_timeout", Method: "GET", Path: "/slow/7"}, c09Req{Kind: "slow_behind_timeout", Method: "GET", Path: "/slow/8"})
+		}
 		solo := make([]string, len(pool))
 		for i, q := range pool {
 			var fresh *rux.Router
-			if pv, panicked := catch(func() { fresh = p.Build() }); panicked {
+			if pv, panicked := catch(func() { fresh = build() }); panicked {
 				t.Fail("registration-panic", "%v", pv)
 				return
 			}
@@ -579,7 +611,7 @@ func runC03B(e *Env) {
 			solo[i] = rec.Outcome()
 		}
 		var router *rux.Router
-		if pv, panicked := catch(func() { router = p.Build() }); panicked {
+		if pv, panicked := catch(func() { router = build() }); panicked {
 			t.Fail("registration-panic", "%v", pv)
 			return
 		}
